@@ -131,9 +131,12 @@ class TOpt(T):
         self.name = f'Opt[{inner.name}]'
         key = ('opt', inner.name)
         if key not in _cache:
-            d = z3.Datatype(f'Opt_{_mangle(inner.name)}')
-            d.declare('none')
-            d.declare('some', ('val', inner.sort()))
+            # constructor / accessor names are unique per datatype: SMT-LIB printers do not annotate overloaded constructors, and
+            # cvc5 (second opinion) rejects `none` when several datatypes declare it
+            m = _mangle(inner.name)
+            d = z3.Datatype(f'Opt_{m}')
+            d.declare(f'none_{m}')
+            d.declare(f'some_{m}', (f'val_{m}', inner.sort()))
             _cache[key] = d.create()
         self._dt = _cache[key]
 
@@ -141,13 +144,16 @@ class TOpt(T):
         return self._dt
 
     def is_none(self, term):
-        return self._dt.is_none(term)
+        return self._dt.recognizer(0)(term)
 
     def none(self):
-        return self._dt.none
+        return self._dt.constructor(0)()
 
     def some(self, term):
-        return self._dt.some(term)
+        return self._dt.constructor(1)(term)
+
+    def val_acc(self, term):
+        return self._dt.accessor(1, 0)(term)
 
     def val(self, term):
         # structural shortcut: the payload of  ite(c, some(x), none)  can only be x
@@ -160,13 +166,13 @@ class TOpt(T):
                 return b.arg(0)
         if self._is_some(t):
             return t.arg(0)
-        return self._dt.val(term)
+        return self.val_acc(term)
 
     def _is_some(self, t):
-        return z3.is_app(t) and t.num_args() == 1 and t.decl().eq(self._dt.some)
+        return z3.is_app(t) and t.num_args() == 1 and t.decl().eq(self._dt.constructor(1))
 
     def _is_none_term(self, t):
-        return z3.is_app(t) and t.num_args() == 0 and t.decl().eq(self._dt.none.decl())
+        return z3.is_app(t) and t.num_args() == 0 and t.decl().eq(self._dt.constructor(0))
 
     def truthy(self, term):
         return z3.And(z3.Not(self.is_none(term)), self.inner.truthy(self.val(term)))
@@ -190,8 +196,9 @@ class TTup(T):
         self.name = 'Tup[' + ','.join(i.name for i in items) + ']'
         key = ('tup', self.name)
         if key not in _cache:
-            d = z3.Datatype('Tup_' + _mangle(self.name))
-            d.declare('mk', *[(f'f{i}', t.sort()) for i, t in enumerate(items)])
+            m = _mangle(self.name)
+            d = z3.Datatype('Tup_' + m)
+            d.declare(f'mk_{m}', *[(f'f{i}_{m}', t.sort()) for i, t in enumerate(items)])
             _cache[key] = d.create()
         self._dt = _cache[key]
 
@@ -199,10 +206,10 @@ class TTup(T):
         return self._dt
 
     def mk(self, *terms):
-        return self._dt.mk(*terms)
+        return self._dt.constructor(0)(*terms)
 
     def get(self, term, i):
-        return getattr(self._dt, f'f{i}')(term)
+        return self._dt.accessor(0, i)(term)
 
     def truthy(self, term):
         return z3.BoolVal(len(self.items) > 0)
